@@ -63,16 +63,17 @@ type marker struct{ N int }
 type syncMsg struct{}
 
 type rig struct {
-	e       *actor.Engine
-	mu      sync.Mutex
-	logs    map[string][]Ev
-	pids    map[string]*actor.PID
-	copies  map[string]*actor.PID
-	flush   chan int
-	fcount  atomic.Int64      // everything the flush subscriber has seen except markers
-	names   map[string]string // pid id -> model name
-	respawn map[string]bool   // the recorder spawns a successor from its Stopped handler
-	lost    bool              // a marker event never reached the flush subscriber
+	e                 *actor.Engine
+	mu                sync.Mutex
+	logs              map[string][]Ev
+	pids              map[string]*actor.PID
+	copies            map[string]*actor.PID
+	flush             chan int
+	fcount            atomic.Int64      // everything the flush subscriber has seen except markers
+	names             map[string]string // pid id -> model name
+	respawn           map[string]bool   // the recorder spawns a successor from its Stopped handler
+	lost              bool              // a marker event never reached the flush subscriber
+	sentUndeliverable bool              // the case has issued an undeliverable send already
 }
 
 func (r *rig) nameOf(p *actor.PID) string {
@@ -311,6 +312,7 @@ func runCase(c *Case) (seen map[string][]Ev, problem string) {
 			if op.Sender == "snd" {
 				sender = snd
 			}
+			r.sentUndeliverable = true
 			var payload any = testMsg{op.ID}
 			if op.B == "nil" {
 				payload = nil // the untyped nil is a message value like any other
@@ -356,6 +358,11 @@ func runCase(c *Case) (seen map[string][]Ev, problem string) {
 }
 
 func (r *rig) quiesceProblem() string {
+	if r.lost && r.sentUndeliverable {
+		// the stream served its subscribers until an undeliverable message was sent: the event for it (and everything
+		// after it) is lost to a subscriber that never left
+		return "C09|after an undeliverable send the event stream stopped delivering to an actor subscribed since before the scenario (its events are lost, not surfaced exactly once)"
+	}
 	if r.lost {
 		return "C12|an event broadcast while an actor was subscribed (since before the scenario, never unsubscribed) was not delivered to it within 5 s"
 	}
@@ -401,8 +408,8 @@ func judge(c *Case, seen map[string][]Ev, problem string) (string, string) {
 		if strings.HasPrefix(problem, "harness:") {
 			return "harness", problem
 		}
-		if strings.HasPrefix(problem, "C12|") {
-			return "C12", problem[4:]
+		if strings.HasPrefix(problem, "C12|") || strings.HasPrefix(problem, "C09|") {
+			return problem[:3], problem[4:]
 		}
 		return "C09", problem
 	}
